@@ -274,7 +274,14 @@ def install_select(e):
 
     def sel_post(c, old, a, res):
         # truthy exactly when bytes are pending in the TLS layer or the selector reported readiness
-        return z3.BoolVal(True)
+        from pyvc.interp import truth
+        t = truth(c, res)
+        t = z3.BoolVal(t) if isinstance(t, bool) else t
+        ready = c.ghost.get("$ready")
+        if ready is None:   # returned without waiting: only because decrypted bytes were pending
+            return t
+        return t == z3.BoolVal(len(ready) > 0)
+    e.after_call[("SSLDispatcher.select", "select")] = lambda c, fr, r: c.ghost.__setitem__("$ready", r)
     e.add(Contract(D + "SSLDispatcher.select", cases=[("any", sel_case)], requires=sel_req, ensures=sel_post, inline_at_calls=True,
                    props=("C13", "C16"),
                    doc="readiness test of the TLS select loop: pending decrypted bytes are reported at once; only when there are none does "
